@@ -18,13 +18,14 @@ from collections import defaultdict
 from typing import Dict, List, Optional, Set, Tuple
 
 from ..astutil import (
-    attr_stores, call_name, calls_in, const_str, dotted, lexical_guards, name_stores, test_atoms, unparse,
+    attr_stores, call_name, calls_in, const_str, dotted, enclosing_stmt, lexical_guards, name_stores, test_atoms, unparse,
     walk_local,
 )
 from ..cfg import no_exc
 from ..evalx import Evaluator, Sym
 from ..oracles import load as load_oracle
 from ..report import Registry, chain, sub
+from ._helpers_rob_i import nf
 from ._helpers_rules_c import call_nodes, loc_of, must_pass, own_calls
 from ._helpers_str_c import post_values_clause_classes
 
@@ -291,7 +292,7 @@ class _SetShape:
         self.ctx, self.m, self.sets = ctx, m, sets
         f = m.f
         self.g = g = ctx.cfg(f)
-        self.pm = f.module.parents()
+        self.pm = getattr(f, "pm", None) or f.module.parents()      # a normal form (rob-A) carries its own parent map
         self.render_calls = [c for c, r in m.process_calls() if r & sets]
         ctx.require(self.render_calls, f"{f.key}: no self.process(<SET value>) call")
         # names holding rendered text
@@ -465,12 +466,18 @@ def r2(ctx):
         lks = [k for k in _lookups(loop.body, dict_names) if C in _names_closure(f.node, k)]
         ctx.require(lks, f"{f.key}: no lookup into the SET dictionary keyed by the column loop variable `{C}`")
         bad_lk = []
+        def is_col_or_key(e, depth=0):
+            if isinstance(e, ast.Name) and e.id == C:
+                return True
+            if isinstance(e, ast.Attribute) and isinstance(e.value, ast.Name) and e.value.id == C and e.attr == "key":
+                return True
+            if isinstance(e, ast.Name) and depth < 3:       # `found = col_key` / `found = c` in the arms of the membership tests
+                ds = _local_defs(f.node, e.id)
+                return bool(ds) and all(is_col_or_key(d, depth + 1) for d in ds)
+            return False
         for k in lks:
-            k2 = _single_def(f.node, k)
-            okk = (isinstance(k2, ast.Name) and k2.id == C) or (isinstance(k2, ast.Attribute) and isinstance(k2.value, ast.Name)
-                                                                 and k2.value.id == C and k2.attr == "key")
-            if not okk:
-                bad_lk.append(unparse(k2))
+            if not is_col_or_key(k):
+                bad_lk.append(unparse(_single_def(f.node, k)))
         quotes = []
         for st in loop.body:
             for c in calls_in(st, into_nested=False):
@@ -498,51 +505,223 @@ def r2(ctx):
                   + " (for Column('x', key='y') and set_={'y': 1} the statement must assign to \"x\"; anything else names a "
                     "column the table does not have, or drops the entry)",
                   f"lookup by {C}.key/{C}; target = quote({C}.name)", loc_of(f, loop))
-        # (b) untyped bind takes the column's type
-        coercions_ = []
-        for st in loop.body:
-            for c in calls_in(st, into_nested=True):
-                if _last(call_name(c)) == "_with_binary_element_type" and isinstance(c.func, ast.Attribute):
-                    coercions_.append(c)
-        good, why = False, "no `<value>._with_binary_element_type(<column>.type)` for SET values"
-        for c in coercions_:
-            arg = c.args[0] if c.args else None
-            if not (isinstance(arg, ast.Attribute) and arg.attr == "type" and isinstance(arg.value, ast.Name) and arg.value.id == C):
-                why = f"`{unparse(c)[:70]}` does not use `{C}.type`"
+        # (b) untyped bind takes the column's type -- on EVERY path from a lookup to the rendering
+        _r2_coercion(ctx, m, sets)
+
+
+# callees the rules of this module recognise by name: never inlined by the normal form
+NF_KEEP = ("process", "quote", "warn", "warn_limited", "expect", "expect_as_key", "replacement_traverse",
+           "_with_binary_element_type", "self_group", "_on_conflict_target")
+
+
+def _normal_member(ctx, m: _Member) -> _Member:
+    """The same family member on the helper-inlined / alias-resolved normal form of its function (rob-A): an
+    extracted `self._typed_value(value, c)` is judged by what it does at the call site."""
+    f2 = nf(ctx, m.f, keep=NF_KEEP)
+    if f2 is m.f or not (getattr(f2, "inlined", None) or getattr(f2, "n_alias", 0)):
+        return m
+    return _Member(f2, m.param, m.dialect, dict(m.attrs), m.is_visitor)
+
+
+def _flag_defs(fn) -> Dict[str, ast.stmt]:
+    """{local: its only binding statement} for locals bound once to a condition (comparison / and / or / not /
+    isinstance(..)): a named guard such as `untyped = isinstance(v, BindParameter) and v.type._isnull`."""
+    by: Dict[str, list] = defaultdict(list)
+    for nm, v, st in name_stores(fn, into_nested=True):
+        by[nm].append((v, st))
+    out = {}
+    for nm, lst in by.items():
+        if len(lst) != 1 or lst[0][0] is None:
+            continue
+        v, st = lst[0]
+        if isinstance(v, (ast.Compare, ast.BoolOp)) or (isinstance(v, ast.UnaryOp) and isinstance(v.op, ast.Not)) \
+                or (isinstance(v, ast.Call) and call_name(v) == "isinstance"):
+            out[nm] = st
+    return out
+
+
+def _expand_guards(sh: _SetShape, fn, pairs) -> List[Tuple[ast.AST, Set[Tuple[str, bool]]]]:
+    """[(deciding construct, its atoms)] for (test, polarity) pairs; an atom that is a named condition is expanded to
+    its definition when that definition is still current at the test (no operand re-bound in between)."""
+    g = sh.g
+    flags = _flag_defs(fn)
+    out: List[Tuple[ast.AST, Set[Tuple[str, bool]]]] = []
+    for t, pol in pairs:
+        owner = sh.pm.get(t)
+        atoms: Set[Tuple[str, bool]] = set()
+        for txt, p in test_atoms(t, pol):
+            dst = flags.get(txt)
+            if dst is None:
+                atoms.add((txt, p))
                 continue
-            recv = dotted(c.func.value)
-            atoms = set()
-            for t, pol in lexical_guards(sh.pm, c, stop=f.node):
-                atoms |= set(test_atoms(t, pol))
-            inst = any(p and txt.startswith(f"isinstance({recv},") and "BindParameter" in txt for txt, p in atoms)
-            isnull = (f"{recv}.type._isnull", True) in atoms
-            if not (inst and isnull):
-                why = (f"`{unparse(c)[:70]}` is not guarded by `isinstance({recv}, BindParameter) and {recv}.type._isnull` "
-                       f"(guards: {sorted(t for t, p in atoms if p)})")
-                continue
-            # result must flow into the rendered value
-            parent = sh.pm.get(c)
-            flows = False
-            if isinstance(parent, ast.Assign) and any(isinstance(t, ast.Name) and t.id in sh.value_names for t in parent.targets):
+            val = dst.value
+            reads = {x.id for x in ast.walk(val) if isinstance(x, ast.Name)}
+            dn = set(g.nodes_for(dst))
+            tst = owner if isinstance(owner, ast.stmt) else enclosing_stmt(sh.pm, t)
+            tn = set(g.nodes_for(tst)) if tst is not None else set()
+            between = set(g.reachable([b for a in dn for b, lab in g.succ[a] if lab != "exc"], avoid=tn, edge_ok=no_exc))
+            stale = False
+            for nm2, _v2, st2 in name_stores(fn, into_nested=False):
+                if nm2 in reads and st2 is not dst:
+                    for n2 in g.nodes_for(st2):
+                        if n2 in between and tn & set(g.reachable([n2], avoid=dn, edge_ok=no_exc)):
+                            stale = True
+            if stale or not dn or not tn:
+                atoms.add((txt, p))
+            else:
+                atoms.update(test_atoms(val, p))
+        out.append((owner, atoms))
+    return out
+
+
+def _guard_atoms_of(sh: _SetShape, fn, node) -> List[Tuple[ast.AST, Set[Tuple[str, bool]]]]:
+    """lexical guards of an expression / statement (named conditions expanded)"""
+    return _expand_guards(sh, fn, lexical_guards(sh.pm, node, stop=fn))
+
+
+def _atoms_at(sh: _SetShape, fn, n: int) -> Set[Tuple[str, bool]]:
+    """branch outcomes that hold whenever CFG node `n` runs: CFG-dominating outcomes (early exits included) and the
+    lexical guards of its statement, named conditions expanded"""
+    st = sh.g.nodes[n].stmt
+    pairs = list(sh.g.edge_guards(n)) + (list(lexical_guards(sh.pm, st, stop=fn)) if st is not None else [])
+    return {a for _o, at in _expand_guards(sh, fn, pairs) for a in at}
+
+
+def _r2_coercion(ctx, m0: _Member, sets: Set[str]):
+    """C56-R2 (b).  Every value looked up in the SET dictionary by a table column must, before it is rendered, pass the
+    decision `is it an untyped BindParameter? -> take the column's type`.  Decided on the CFG of the normal form:
+    from every lookup inside the column loop, every path to the rendering passes the test that guards the coercion (or
+    the statement that applies a replacement function containing it)."""
+    m = _normal_member(ctx, m0)
+    f = m.f
+    sh = _SetShape(ctx, m, sets)
+    g = sh.g
+    loop = _column_loop(ctx, m, sh)
+    C = loop.target.id
+    in_loop = {id(x) for st in loop.body for x in ast.walk(st)}
+    # names through which a SET value travels to the rendering (`typed = f(val)`; `val = d[k]`): backwards closure
+    vn: Set[str] = set(sh.value_names)
+    for _ in range(4):
+        for nm, v, st in name_stores(f.node):
+            if nm in vn and v is not None and id(st) in in_loop:
+                vn |= {x.id for x in ast.walk(v) if isinstance(x, ast.Name) and isinstance(x.ctx, ast.Load)
+                       and (m.roots.of(x) - {"<clause>"}) and not (m.roots.plain(x) - sets) and x.id != C
+                       and any(not it for _s, _p, it in m.roots.binds.get(x.id, ()))
+                       and not any(isinstance(src, (ast.Dict, ast.DictComp)) or (isinstance(src, ast.Call) and _last(call_name(src)) in ("dict", "items"))
+                                   for src, _p, _it in m.roots.binds.get(x.id, ()))}
+    coercions_ = []
+    for st in loop.body:
+        for c in calls_in(st, into_nested=True):
+            if _last(call_name(c)) == "_with_binary_element_type" and isinstance(c.func, ast.Attribute):
+                coercions_.append(c)
+    good: List[Tuple[ast.Call, Set[int], Set[Tuple[str, bool]]]] = []
+    why = "no `<value>._with_binary_element_type(<column>.type)` for SET values"
+    for c in coercions_:
+        arg = _single_def(f.node, c.args[0]) if c.args else None       # `column_type = c.type` two lines above
+        if not (isinstance(arg, ast.Attribute) and arg.attr == "type" and isinstance(arg.value, ast.Name) and arg.value.id == C):
+            why = f"`{unparse(c)[:70]}` does not use `{C}.type`"
+            continue
+        recv = dotted(c.func.value)
+        guards = _guard_atoms_of(sh, f.node, c)
+        atoms = {a for _o, at in guards for a in at}
+
+        def relevant(txt, p):
+            return p and ((txt.startswith(f"isinstance({recv},") and "BindParameter" in txt) or txt == f"{recv}.type._isnull")
+        owners = [o for o, at in guards if any(relevant(txt, p) for txt, p in at)]
+        inst = any(p and txt.startswith(f"isinstance({recv},") and "BindParameter" in txt for txt, p in atoms)
+        isnull = (f"{recv}.type._isnull", True) in atoms
+        if not (inst and isnull) or _dead(atoms):
+            why = (f"`{unparse(c)[:70]}` is not guarded by `isinstance({recv}, BindParameter) and {recv}.type._isnull` "
+                   f"(guards: {sorted(t for t, p in atoms if p)})")
+            continue
+        # result must flow into the rendered value; `decide` = the CFG nodes at which the coercion is decided / applied
+        parent = sh.pm.get(c)
+        while isinstance(parent, (ast.IfExp, ast.BoolOp)):
+            parent = sh.pm.get(parent)
+        decide: Set[int] = set()
+        # conditions tested TOGETHER with the decision narrow it (`by_key and isinstance(..) and ..`); enclosing tests need
+        # no separate treatment: a lookup outside them has a path that never reaches the decision
+        extra = {(txt, p) for o, at in guards if any(o is x for x in owners) for txt, p in at if not relevant(txt, p)}
+        flows = False
+        if isinstance(parent, (ast.Assign, ast.AnnAssign)):
+            tgts = parent.targets if isinstance(parent, ast.Assign) else [parent.target]
+            if any(isinstance(t, ast.Name) and t.id in vn for t in tgts):
                 flows = True
-            if isinstance(parent, ast.Return):
-                # nested replacement function: its name must be passed to a call whose result is a rendered value
-                cur = parent
-                while cur is not None and not isinstance(cur, (ast.FunctionDef, ast.Lambda)):
-                    cur = sh.pm.get(cur)
-                if isinstance(cur, ast.FunctionDef) and cur is not f.node:
-                    for nm, v, _ in name_stores(f.node):
-                        if nm in sh.value_names and v is not None and any(isinstance(x, ast.Name) and x.id == cur.name for x in ast.walk(v)):
-                            flows = True
-            if not flows:
-                why = f"the result of `{unparse(c)[:70]}` does not reach the rendered value"
+                for o in owners:
+                    if isinstance(o, (ast.If, ast.While)):
+                        decide |= {n for n in g.nodes_for(o) if g.nodes[n].kind == "test"}
+                    else:                                   # conditional expression / and / or: decided inside the statement
+                        decide |= set(g.nodes_for(parent))
+        if isinstance(parent, ast.Return):
+            # nested replacement function: its name must be passed to a call whose result is a rendered value
+            cur = parent
+            while cur is not None and not isinstance(cur, (ast.FunctionDef, ast.Lambda)):
+                cur = sh.pm.get(cur)
+            if isinstance(cur, ast.FunctionDef) and cur is not f.node:
+                for nm, v, st in name_stores(f.node):
+                    if nm in vn and v is not None and id(st) in in_loop \
+                            and any(isinstance(x, ast.Name) and x.id == cur.name for x in ast.walk(v)):
+                        flows = True
+                        decide |= set(g.nodes_for(st))      # (a path around this statement is a path without the coercion)
+                        extra = set()
+        if not flows or not decide:
+            why = f"the result of `{unparse(c)[:70]}` does not reach the rendered value"
+            continue
+        good.append((c, decide, extra))
+    key = m0.f.key + ":untyped-bind-takes-the-columns-type"
+    tail = (" (a plain Python value in the SET dictionary, e.g. set_={'data': {'a': 1}} for a JSON column or a "
+            "datetime for a SQLite DateTime column, is bound without the column type's bind processing)")
+    if not good:
+        ctx.violation(key, why + tail, loc_of(f, loop))
+        return
+    # every lookup by the loop column -> rendering passes a decision that can apply to it
+    loop_nodes = set(g.nodes_for(loop))
+    renders = [n for rc in sh.render_calls if id(rc) in in_loop for n in g.nodes_containing(rc)]
+    ctx.require(renders, f"{f.key}: no rendering of a SET value inside the column loop")
+    takes = []
+    for nd in g.nodes:
+        st = nd.stmt
+        if nd.kind != "stmt" or id(st) not in in_loop or not isinstance(st, (ast.Assign, ast.AnnAssign)) or getattr(st, "value", None) is None:
+            continue
+        tg = st.targets if isinstance(st, ast.Assign) else [st.target]
+        if not ({x.id for t in tg for x in ast.walk(t) if isinstance(x, ast.Name)} & vn):
+            continue
+        # read from the dictionary itself, not a value that is merely passed on (`value = value` of an inlined helper)
+        direct = {a for a in m.roots.of(st.value, set(vn)) if not a.startswith("key:")} & sets
+        if direct:
+            takes.append(nd.id)
+    ctx.require(takes, f"{f.key}: cannot see where the column loop takes values from {sorted(sets)}")
+    coerced = {id(sh.pm.get(c)) for c, _d, _x in good} | {id(enclosing_stmt(sh.pm, c)) for c, _d, _x in good}
+    all_decide = set().union(*[d for _c, d, _x in good])
+    n_lookups = 0
+    for n in takes:
+        if n in all_decide or id(g.nodes[n].stmt) in coerced:
+            continue        # the statement that applies the coercion: its result is the typed value
+        n_lookups += 1
+        here = _atoms_at(sh, f.node, n)
+        through = set(loop_nodes)
+        excluded = []
+        for c, d, extra in good:
+            against = [(txt, p) for txt, p in extra if (txt, not p) in here]
+            unknown = [(txt, p) for txt, p in extra if (txt, p) not in here and (txt, not p) not in here]
+            if against:
+                excluded.append((c, against[0]))
                 continue
-            good = True
-            break
-        ctx.check(good, f.key + ":untyped-bind-takes-the-columns-type",
-                  why + " (a plain Python value in the SET dictionary, e.g. set_={'data': {'a': 1}} for a JSON column or a "
-                        "datetime for a SQLite DateTime column, is bound without the column type's bind processing)",
-                  f"BindParameter with null type -> _with_binary_element_type({C}.type)", loc_of(f, loop))
+            ctx.require(not unknown, f"{f.key}: `{unparse(c)[:60]}` is applied only when `{unknown[0][0] if unknown else ''}` is "
+                                     f"{unknown[0][1] if unknown else ''}: cannot tell for which lookups that holds")
+            through |= d
+        # (the engine's path query tests neither `through` nor the targets on the start node itself: start AT the lookup)
+        w = must_pass(g, [n], renders, through, edge_ok=no_exc)
+        if w:
+            how = ", ".join(sorted({f"`{unparse(c)[:60]}`" for c, _d, _x in good}))
+            exc = (f"; it runs only when `{excluded[0][1][0]}` is {excluded[0][1][1]}, which is not the case for this lookup" if excluded else "")
+            ctx.violation(key, f"the value taken by `{unparse(g.nodes[n].stmt)[:70]}` reaches the rendering "
+                               f"`{unparse(g.nodes[renders[0]].stmt)[:60]}` on a path that never decides the untyped-bind coercion "
+                               f"({how} is applied to the values of another lookup only{exc}; the SET dictionary may be keyed by the "
+                               f"column's key or by the Column object, and both lookups must be typed)" + tail, loc_of(f, g.nodes[n].stmt), w)
+            return
+    ctx.require(n_lookups, f"{f.key}: every statement that takes a SET value applies the coercion itself (shape not understood)")
+    ctx.ok(key, f"BindParameter with null type -> _with_binary_element_type({C}.type) decided on every path of {n_lookups} lookup(s) to the rendering")
 
 
 # ---------------------------------------------------------------------- C56-R3
@@ -1207,3 +1386,209 @@ R.mutant("sqlite-quote-alias-renders-column-key", SL, chain(
 R.mutant("sqlite-process-alias-drops-kw", SL,
          sub("            value_text = self.process(\n                value.self_group(), is_upsert_set=True, **set_kw\n            )\n\n            key_text = self.preparer.quote(c.name)\n            action_set_ops.append(\"%s = %s\" % (key_text, value_text))\n\n        # check for names that don't match columns\n        if set_parameters:\n            util.warn(\n                \"Additional column names not matching \"\n                \"any column keys in table '%s': %s\"\n                % (\n                    self.current_executable.table.name,\n                    (\", \".join(\"'%s'\" % c for c in set_parameters)),\n                )\n            )\n            for k, v in set_parameters.items():\n                key_text = (\n                    self.preparer.quote(k)\n                    if isinstance(k, str)\n                    else self.process(k, **set_kw)\n                )\n",
              "            render = self.process\n            value_text = render(\n                value.self_group(), is_upsert_set=True, use_schema=False\n            )\n\n            key_text = self.preparer.quote(c.name)\n            action_set_ops.append(\"%s = %s\" % (key_text, value_text))\n\n        # check for names that don't match columns\n        if set_parameters:\n            util.warn(\n                \"Additional column names not matching \"\n                \"any column keys in table '%s': %s\"\n                % (\n                    self.current_executable.table.name,\n                    (\", \".join(\"'%s'\" % c for c in set_parameters)),\n                )\n            )\n            for k, v in set_parameters.items():\n                key_text = (\n                    self.preparer.quote(k)\n                    if isinstance(k, str)\n                    else self.process(k, **set_kw)\n                )\n"), "C56-R3")
+
+# ---- str2-x (round-2 seeds): R2 (b) is a PATH clause -- every lookup of the column loop passes the coercion decision
+_SL_LOOKUP_COERCE = (
+    "            if col_key in set_parameters:\n"
+    "                value = set_parameters.pop(col_key)\n"
+    "            elif c in set_parameters:\n"
+    "                value = set_parameters.pop(c)\n"
+    "            else:\n"
+    "                continue\n"
+    "\n"
+    "            if (\n"
+    "                isinstance(value, elements.BindParameter)\n"
+    "                and value.type._isnull\n"
+    "            ):\n"
+    "                value = value._with_binary_element_type(c.type)\n"
+    "\n"
+    "            value_text = self.process(\n"
+    "                value.self_group(), is_upsert_set=True, **set_kw\n"
+    "            )\n"
+    "\n"
+    "            key_text = self.preparer.quote(c.name)\n"
+    "            action_set_ops.append(\"%s = %s\" % (key_text, value_text))\n"
+    "\n"
+    "        # check for names that don't match columns\n"
+    "        if set_parameters:\n"
+    "            util.warn(\n"
+    "                \"Additional column names not matching \"\n"
+    "                \"any column keys in table '%s': %s\"\n"
+    "                % (\n"
+    "                    self.current_executable.table.name,\n"
+    "                    (\", \".join(\"'%s'\" % c for c in set_parameters)),\n"
+    "                )\n"
+    "            )\n"
+    "            for k, v in set_parameters.items():\n"
+    "                key_text = (\n"
+    "                    self.preparer.quote(k)\n"
+    "                    if isinstance(k, str)\n"
+    "                    else self.process(k, **set_kw)\n"
+)
+_PG_LOOKUP_COERCE = (
+    "            if col_key in set_parameters:\n"
+    "                value = set_parameters.pop(col_key)\n"
+    "            elif c in set_parameters:\n"
+    "                value = set_parameters.pop(c)\n"
+    "            else:\n"
+    "                continue\n"
+    "\n"
+    "            assert not coercions._is_literal(value)\n"
+    "            if (\n"
+    "                isinstance(value, elements.BindParameter)\n"
+    "                and value.type._isnull\n"
+    "            ):\n"
+    "                value = value._with_binary_element_type(c.type)\n"
+)
+
+
+def _sl(new_head: str):
+    """replace the lookup + coercion part of SQLiteCompiler.visit_on_conflict_do_update (the tail of the constant only
+    makes the text unique against the PostgreSQL / other copies)"""
+    old_head = _SL_LOOKUP_COERCE.split("            value_text = self.process(\n")[0]
+    assert _SL_LOOKUP_COERCE.startswith(old_head)
+    return sub(_SL_LOOKUP_COERCE, new_head + _SL_LOOKUP_COERCE[len(old_head):])
+
+
+R.mutant("seed-sqlite-coercion-only-for-string-keyed-lookup", SL, _sl(
+    "            if col_key in set_parameters:\n"
+    "                value = set_parameters.pop(col_key)\n"
+    "                if (\n"
+    "                    isinstance(value, elements.BindParameter)\n"
+    "                    and value.type._isnull\n"
+    "                ):\n"
+    "                    value = value._with_binary_element_type(c.type)\n"
+    "            elif c in set_parameters:\n"
+    "                value = set_parameters.pop(c)\n"
+    "            else:\n"
+    "                continue\n"
+    "\n"), "C56-R2")
+R.mutant("pg-coercion-narrowed-by-named-lookup-condition", PG, sub(
+    _PG_LOOKUP_COERCE,
+    "            by_key = col_key in set_parameters\n"
+    "            if by_key:\n"
+    "                value = set_parameters.pop(col_key)\n"
+    "            elif c in set_parameters:\n"
+    "                value = set_parameters.pop(c)\n"
+    "            else:\n"
+    "                continue\n"
+    "\n"
+    "            assert not coercions._is_literal(value)\n"
+    "            if (\n"
+    "                by_key\n"
+    "                and isinstance(value, elements.BindParameter)\n"
+    "                and value.type._isnull\n"
+    "            ):\n"
+    "                value = value._with_binary_element_type(c.type)\n"), "C56-R2")
+R.mutant("sqlite-extracted-coercion-helper-called-for-one-lookup-only", SL, chain(
+    _sl("            if col_key in set_parameters:\n"
+        "                value = self._typed_set_value(\n"
+        "                    set_parameters.pop(col_key), c\n"
+        "                )\n"
+        "            elif c in set_parameters:\n"
+        "                value = set_parameters.pop(c)\n"
+        "            else:\n"
+        "                continue\n"
+        "\n"),
+    sub("    def visit_on_conflict_do_update(self, on_conflict, **kw):\n        clause = on_conflict\n",
+        "    def _typed_set_value(self, value, column):\n"
+        "        if isinstance(value, elements.BindParameter) and value.type._isnull:\n"
+        "            return value._with_binary_element_type(column.type)\n"
+        "        return value\n\n"
+        "    def visit_on_conflict_do_update(self, on_conflict, **kw):\n        clause = on_conflict\n")), "C56-R2")
+R.mutant("mysql-replacement-only-for-plain-binds", MY, sub(
+    "            val = visitors.replacement_traverse(val, {}, replace)\n",
+    "            if isinstance(val, elements.BindParameter):\n"
+    "                val = visitors.replacement_traverse(val, {}, replace)\n"), "C56-R2")
+# behaviour-preserving variants of the same code: all lookups still pass the decision
+R.mutant("benign-sqlite-coercion-in-both-lookup-branches", SL, _sl(
+    "            if col_key in set_parameters:\n"
+    "                value = set_parameters.pop(col_key)\n"
+    "                if (\n"
+    "                    isinstance(value, elements.BindParameter)\n"
+    "                    and value.type._isnull\n"
+    "                ):\n"
+    "                    value = value._with_binary_element_type(c.type)\n"
+    "            elif c in set_parameters:\n"
+    "                value = set_parameters.pop(c)\n"
+    "                if (\n"
+    "                    isinstance(value, elements.BindParameter)\n"
+    "                    and value.type._isnull\n"
+    "                ):\n"
+    "                    value = value._with_binary_element_type(c.type)\n"
+    "            else:\n"
+    "                continue\n"
+    "\n"), None)
+R.mutant("benign-sqlite-coercion-extracted-helper-early-return", SL, chain(
+    _sl("            if col_key in set_parameters:\n"
+        "                value = set_parameters.pop(col_key)\n"
+        "            elif c in set_parameters:\n"
+        "                value = set_parameters.pop(c)\n"
+        "            else:\n"
+        "                continue\n"
+        "\n"
+        "            value = self._typed_set_value(value, c)\n"
+        "\n"),
+    sub("    def visit_on_conflict_do_update(self, on_conflict, **kw):\n        clause = on_conflict\n",
+        "    def _typed_set_value(self, value, column):\n"
+        "        if not isinstance(value, elements.BindParameter):\n"
+        "            return value\n"
+        "        if not value.type._isnull:\n"
+        "            return value\n"
+        "        return value._with_binary_element_type(column.type)\n\n"
+        "    def visit_on_conflict_do_update(self, on_conflict, **kw):\n        clause = on_conflict\n")), None)
+R.mutant("benign-pg-coercion-conditional-expression", PG, sub(
+    _PG_LOOKUP_COERCE,
+    "            if col_key in set_parameters:\n"
+    "                value = set_parameters.pop(col_key)\n"
+    "            elif c in set_parameters:\n"
+    "                value = set_parameters.pop(c)\n"
+    "            else:\n"
+    "                continue\n"
+    "\n"
+    "            assert not coercions._is_literal(value)\n"
+    "            value = (\n"
+    "                value._with_binary_element_type(c.type)\n"
+    "                if isinstance(value, elements.BindParameter)\n"
+    "                and value.type._isnull\n"
+    "                else value\n"
+    "            )\n"), None)
+R.mutant("benign-pg-coercion-named-condition-inverted-branch", PG, sub(
+    _PG_LOOKUP_COERCE,
+    "            if col_key in set_parameters:\n"
+    "                value = set_parameters.pop(col_key)\n"
+    "            elif c in set_parameters:\n"
+    "                value = set_parameters.pop(c)\n"
+    "            else:\n"
+    "                continue\n"
+    "\n"
+    "            assert not coercions._is_literal(value)\n"
+    "            untyped = (\n"
+    "                isinstance(value, elements.BindParameter)\n"
+    "                and value.type._isnull\n"
+    "            )\n"
+    "            if not untyped:\n"
+    "                pass\n"
+    "            else:\n"
+    "                column_type = c.type\n"
+    "                value = value._with_binary_element_type(column_type)\n"), None)
+R.mutant("benign-sqlite-lookup-key-chosen-first-single-pop", SL, _sl(
+    "            if col_key in set_parameters:\n"
+    "                found = col_key\n"
+    "            elif c in set_parameters:\n"
+    "                found = c\n"
+    "            else:\n"
+    "                continue\n"
+    "            value = set_parameters.pop(found)\n"
+    "\n"
+    "            if (\n"
+    "                isinstance(value, elements.BindParameter)\n"
+    "                and value.type._isnull\n"
+    "            ):\n"
+    "                value = value._with_binary_element_type(c.type)\n"
+    "\n"), None)
+R.mutant("benign-mysql-replacement-result-in-new-local", MY, sub(
+    "            val = visitors.replacement_traverse(val, {}, replace)\n"
+    "            value_text = self.process(val.self_group(), **set_kw)\n",
+    "            typed_val = visitors.replacement_traverse(val, {}, replace)\n"
+    "            value_text = self.process(typed_val.self_group(), **set_kw)\n"), None)
